@@ -1,8 +1,11 @@
 package simkit
 
 import (
+	"bufio"
+	"bytes"
 	"errors"
 	"io"
+	"strings"
 )
 
 // ErrStuck is returned by Reader after too many polls that cannot make
@@ -199,4 +202,70 @@ func Exact(b []byte) []byte {
 	out := make([]byte, len(b))
 	copy(out, b)
 	return out
+}
+
+// ---- interface variety: the same simulated endpoints seen through the
+// optional interfaces a library might probe for ---------------------------------
+
+// ByteStringWriter exposes a Writer additionally through io.ByteWriter and
+// io.StringWriter. Every WriteByte / WriteString is an ordinary scheduled write
+// (recorded, counted, failing from FailFrom on).
+type ByteStringWriter struct{ *Writer }
+
+func (w ByteStringWriter) WriteByte(c byte) error {
+	_, err := w.Writer.Write([]byte{c})
+	return err
+}
+
+func (w ByteStringWriter) WriteString(s string) (int, error) { return w.Writer.Write([]byte(s)) }
+
+// ByteWriterOnly exposes io.Writer + io.ByteWriter.
+type ByteWriterOnly struct{ *Writer }
+
+func (w ByteWriterOnly) WriteByte(c byte) error {
+	_, err := w.Writer.Write([]byte{c})
+	return err
+}
+
+// StringWriterOnly exposes io.Writer + io.StringWriter.
+type StringWriterOnly struct{ *Writer }
+
+func (w StringWriterOnly) WriteString(s string) (int, error) { return w.Writer.Write([]byte(s)) }
+
+// AsWriter returns the writer seen through interface set kind (0 plain).
+func (w *Writer) AsWriter(kind int) io.Writer {
+	switch kind % 4 {
+	case 1:
+		return ByteWriterOnly{w}
+	case 2:
+		return StringWriterOnly{w}
+	case 3:
+		return ByteStringWriter{w}
+	}
+	return w
+}
+
+// NumReaderKinds is the number of reader presentations of AsReader.
+const NumReaderKinds = 6
+
+// AsReader presents the same input through different concrete reader types:
+// 0 the scheduled simulator reader; 1 *bytes.Buffer, 2 *bytes.Reader,
+// 3 *strings.Reader (all three implement io.WriterTo, so io.Copy hands the
+// whole input over in one write); 4 bufio.Reader over the scheduled reader;
+// 5 the scheduled reader behind io.LimitedReader. The returned *Reader is nil
+// for the standard-library types.
+func AsReader(kind int, r *Reader) io.Reader {
+	switch kind % NumReaderKinds {
+	case 1:
+		return bytes.NewBuffer(append([]byte{}, r.Data...))
+	case 2:
+		return bytes.NewReader(append([]byte{}, r.Data...))
+	case 3:
+		return strings.NewReader(string(r.Data))
+	case 4:
+		return bufio.NewReaderSize(r, 16)
+	case 5:
+		return &io.LimitedReader{R: r, N: int64(len(r.Data)) + 10}
+	}
+	return r
 }
